@@ -35,7 +35,7 @@ P = {
         "the loop of GetTime, NewDateTimeTypeFromTime - over the layout strings REGENERATED from the source on every run. PROVED (c19_instant_text_exact, c19_instant_text_whole_second): for every instant whose rounding to the second lies in the years 0000-9999, every fraction, "
         "every zone, GetTime(NewDateTimeTypeFromTime t) = t.Round(second), UTC; the domain is exact at its upper end (c19_instant_text_year_10000_refuted: five-digit year, unreadable). The proof is generic in the list of layouts "
         "(written_is_read: any list, in any order, of layouts of the family 2006-01-02T15:04:05 + optional .999 + literal bytes or zone element that contains one accepting Z), rests on civil_spec (calendar round trip for ALL day numbers, omega) and parse_written. "
-        "DateType / TimeType (only read by the stack): tied by the differential run and kernel-evaluated witnesses (c19_getters_on_peer_texts), no forall-theorem. "
+        "DateType / TimeType (only read by the stack): PROVED that the plain and the Z form of every date of the years 0000-9999 / every time of day are read as midnight UTC of that date / that time on 1 January of year 0 (c19_date_text_read, c19_time_of_day_text_read); numeric zones and fractions by the differential run and kernel-evaluated witnesses (c19_getters_on_peer_texts). "
         "The glue theorems over DYNAMIC facts (probing the compiled code: c19_datetime_written_is_read, c19_datetime_whole_second_utc, c19_plain_and_z_forms) and the guarded STATIC cross-checks (c19_ast_*) of the first rounds stay. "
         "Sentence 1 above 2^50 (second wave): the least decimals that do not survive, per number of fractional digits, kernel-checked and replayed on the real code on every run (c19_scaled_exact_least_failures: 10*2^49+3, 100*2^45+2, 1000*2^42+21, 10^4*2^38+4; "
         "known finding decimal-from-least-failing-on); that nothing smaller fails is the error analysis 10^d*ulp(v)/2 < 1/4 - its arithmetic heart is a theorem without bound on the numerator (c19_round_recovers_wide), the rest an argument backed by a directed search on the real code every run. "
